@@ -37,7 +37,7 @@ SINGLETONS = {5, 6, 39, 47, 30}  # CNAME SOA DNAME NSEC NXT
 
 
 def shards(tier, seed):
-    mult = 1 if tier == "quick" else 12
+    mult = 1 if tier == "quick" else 300
     types = GR.ALL_TYPES
     return [{"types": types[i::16], "n_val": 25 * mult, "n_pairs": 60 * mult, "n_hist": 160 * mult, "n_rdhist": 120 * mult} for i in range(16)]
 
